@@ -276,7 +276,7 @@ def check_case(case, ctx):
             continue
         gscale = 1.0 + float(np.max(np.abs(G_solver)))
         err = float(np.max(np.abs(Pm.T @ Pm - oracles.psd_projection(G_solver))))
-        if err > k * gscale:
+        if err > 1e-9 * gscale:  # a factorisation, not a solve: round-off tolerance (DESIGN §9, round 15)
             ctx.fail("leaves-not-latest-solution", "round %d: leaf points do not reproduce the Gram matrix of the latest "
                      "solve (error %.3e)" % (r, err))
         val = oracles.leaf_valuation()
@@ -440,6 +440,12 @@ def check_case(case, ctx):
             # after a heuristic the primal value may sit tol_dimension_reduction below the bound, not more: a larger gap in the
             # run of the REBUILT model means the solver cannot solve this model accurately (seen: Gram entries 5e7 for a value
             # of 7e3), and nothing can be concluded from comparing the two runs
+            ctx.label("inconclusive:large-duality-gap")
+            continue
+        if opts.get("drh") and gap1 > thr and sc != "SCS" and gap1 <= 10 * gap2:
+            # the rebuilt model itself ends within a factor 10 of that gap (seen: 0.335 against 1.88 for a value of 5e3 and
+            # tol_dimension_reduction 1e-4): the solver does not reach the stated accuracy on this model at all, and the two
+            # gaps differ by solver noise, not by anything PEPit keeps between solves
             ctx.label("inconclusive:large-duality-gap")
             continue
         if opts.get("drh") and gap1 > thr and sc != "SCS":
